@@ -37,6 +37,9 @@ pub struct DebugScenario {
     pub transport: Transport,
     /// Seed of separator choice (`;` vs newline), blank commands and trailing separator.
     pub sep_seed: u64,
+    /// Program input on standard input. Only meaningful when the whole script arrives in
+    /// `--command` and ends with an explicit `quit`/`exit` (debugger and program share stdin).
+    pub input: Vec<u8>,
 }
 
 impl DebugScenario {
@@ -55,6 +58,7 @@ impl DebugScenario {
             .set("transport", t)
             .set("split_at", k)
             .set("sep_seed", J::Str(format!("{:016x}", self.sep_seed)))
+            .set("input", scn::bytes_to_json(&self.input))
     }
 
     pub fn from_json(j: &J) -> Option<DebugScenario> {
@@ -75,7 +79,13 @@ impl DebugScenario {
                 .get_str("sep_seed")
                 .and_then(|s| u64::from_str_radix(s, 16).ok())
                 .unwrap_or(0),
+            input: j.get("input").map(scn::bytes_from_json).unwrap_or_default(),
         })
+    }
+
+    /// Program input is only delivered when the debugger can never read it as commands.
+    pub fn input_is_deliverable(&self) -> bool {
+        self.transport == Transport::Arg && self.script.iter().any(|i| matches!(i.cmd, Cmd::Quit | Cmd::Exit))
     }
 }
 
@@ -552,7 +562,7 @@ pub fn check_session(cap: &Capture, scn: &DebugScenario, report: &mut Report) ->
         stack: scn.stack,
         minimal: scn.minimal,
         debug: None,
-        stdin: Vec::new(),
+        stdin: if scn.input_is_deliverable() { scn.input.clone() } else { Vec::new() },
         fuel: 60_000,
         max_idle: u64::MAX,
         log_exec: false,
@@ -596,6 +606,9 @@ pub fn check_session(cap: &Capture, scn: &DebugScenario, report: &mut Report) ->
         return out;
     }
 
+    let has_input = scn.input_is_deliverable();
+    let model_input: Vec<u8> = if has_input { scn.input.clone() } else { Vec::new() };
+
     // ----- model pre-run (strict) to size the budget -----
     let labels = scn.program.labels();
     let breaks = scn.program.break_addrs();
@@ -612,9 +625,10 @@ pub fn check_session(cap: &Capture, scn: &DebugScenario, report: &mut Report) ->
     let implicit_quit = !ends_explicitly && scn.transport != Transport::Terminal;
     {
         let mut pre = Dbg::new(vm.clone(), &breaks, labels.clone(), MODEL_BUDGET);
+        pre.io = crate::model::vm::Io::with_input(&model_input);
         for item in &script {
             let o = pre.apply(&item.cmd, Policy::STRICT);
-            if pre.io.input_requests > 0 {
+            if pre.io.input_requests > 0 && !has_input {
                 out.discarded = Some("input-trap-in-session".into());
                 return out;
             }
@@ -648,7 +662,7 @@ pub fn check_session(cap: &Capture, scn: &DebugScenario, report: &mut Report) ->
             arg: delivery.arg.clone(),
             terminal: delivery.terminal.clone(),
         }),
-        stdin: delivery.stdin.clone(),
+        stdin: if has_input { scn.input.clone() } else { delivery.stdin.clone() },
         fuel,
         max_idle: 24,
         log_exec: true,
@@ -658,6 +672,7 @@ pub fn check_session(cap: &Capture, scn: &DebugScenario, report: &mut Report) ->
 
     // ----- lockstep -----
     let mut dbg = Dbg::new(vm, &breaks, labels, MODEL_BUDGET);
+    dbg.io = crate::model::vm::Io::with_input(&model_input);
     let events = &real.events;
     let mut ei = 0usize; // event cursor
     let mut execs_seen = 0u64;
@@ -870,7 +885,7 @@ pub fn check_session(cap: &Capture, scn: &DebugScenario, report: &mut Report) ->
             report.hit(&format!("probe:refused_{}", item.cmd.kind_name()));
         }
 
-        if model_after.io.input_requests > 0 {
+        if model_after.io.input_requests > 0 && !has_input {
             // The debugger and the program share one input stream; a program that reads input
             // (here: after a `move` planted an input trap) is outside the modelled sessions
             out.discarded = Some("input-trap-in-session".into());
@@ -1103,6 +1118,9 @@ pub fn check_session(cap: &Capture, scn: &DebugScenario, report: &mut Report) ->
         }
     }
     report.count("probe:max_idle_ticks_seen_ge2", (real.max_idle_seen >= 2) as u64);
+    if dbg.io.input_requests > 0 {
+        report.hit("probe:input_trap_executed_in_session");
+    }
 
     // ----- C09: transparency (model-free differential) -----
     let transparent = scn.script.iter().all(|i| i.cmd.is_transparent());
@@ -1379,7 +1397,7 @@ pub fn run_delivery(cap: &Capture, scn: &DebugScenario, transport: &Transport, s
             arg: delivery.arg,
             terminal: delivery.terminal,
         }),
-        stdin: delivery.stdin,
+        stdin: if *transport == Transport::Arg && scn.input_is_deliverable() { scn.input.clone() } else { delivery.stdin },
         fuel: 4 * (120_000 + script.len() as u64 + 1) + 64,
         max_idle: 24,
         log_exec: true,
